@@ -204,7 +204,18 @@ class Ctx(object):
                 if ANCHOR_FIELDS.get(cu.field) == "KEYMAP" and cu.mutable and cu.site.body.path in live:
                     roles.setdefault(cu.site.body.path, set()).add(("ROLE", "APPLIED"))
             self._roles = roles
+            ok_roles = {}
+            for e in self.fx.of_kind("FS_READFILE"):
+                if "SETTINGS" in e.classes:
+                    ok_roles.setdefault(e.site.body.path, set()).add(("ROLE", "SETTINGS_CHECKED"))
+            self._ok_roles = ok_roles
         return self._roles
+
+    def role_ok_bodies(self):
+        """SETTINGS_CHECKED: the body that reads the settings file returned Ok (stored settings were
+        loaded and validated, or there are none)."""
+        self.role_bodies()
+        return self._ok_roles
 
     def _subst(self, ev, site, tgt):
         if ev[0] in ("CONT", "ROLE"):
@@ -228,7 +239,8 @@ class Ctx(object):
             self._must[key] = flow.MustFlow(self.prog, self._gen_must, subst=self._subst,
                                             concrete=self._concrete, pruned=pruned, kills=kills,
                                             killers=lambda site: self.may.site_events(site),
-                                            role_events=self.role_bodies())
+                                            role_events=self.role_bodies(),
+                                            role_ok_events=self.role_ok_bodies())
         return self._must[key]
 
     @property
